@@ -22,6 +22,8 @@ CHECKS = {
          'Every command name the server dispatches (checked against the spec table) is refused with one error reply and no effect for unauthenticated connections in the explored states; only the exact password authenticates.'),
  'C18': ('model_checking', 'TLC model checking of the database frame property (MC_Txn/MC_C18) + generated tests + random multi-database histories with 16-way dumps + TLC trace validation',
          'Every reply and the dump of all 16 databases after the explored histories match a 16-way model in which a command touches only the database selected on its connection at that time.'),
+ 'C02': ('model_checking', 'TLC model checking of the implementation-shaped expiry mechanism (spec/impl/ImplSweeper.tla) + random TTL histories, stale-index scenarios (two sweeper passes) and the forced collect/delete race (sync-point hook) on the real server + TLC trace validation with deadline intervals on the observer clock',
+         'Every read of the explored histories, through every command family, sees a key with a TTL exactly until its deadline (interval reasoning on the observer clock), and no key without a due deadline is ever deleted, including in the sweeper race window that the hook forces.'),
 }
 NOT_YET = {}
 
